@@ -40,12 +40,21 @@ func embedIDL(g Generator, i thriftPackageImporter, m *compile.Module) error {
 	}
 
 	hash := sha1.Sum(m.Raw)
-	var includes []string
+	var importPaths []string
 	for _, v := range m.Includes {
 		importPath, err := i.Package(v.Module.ThriftPath)
 		if err != nil {
 			return wrapGenerateError("idl embedding", err)
 		}
+		importPaths = append(importPaths, importPath)
+	}
+
+	// The name under which a package is imported depends on the names that
+	// are already taken, so the packages have to be imported in a fixed order.
+	sort.Strings(importPaths)
+
+	var includes []string
+	for _, importPath := range importPaths {
 		includes = append(includes, g.Import(importPath))
 	}
 
